@@ -133,6 +133,10 @@ func c13Play(c c13Case, times int) (Outcome, c13Gauges, int) {
 			o := fail("header-buffer", "%s: %d octets of undecoded header block are buffered, MaxHeaderListSize is %d", where, n, c.MaxHdr)
 			return &o
 		}
+		if n := st.MaxDiscardedBytes.Load(); n > int64(c.MaxHdr)+16384+64 {
+			o := fail("header-buffer", "%s: %d octets of a header block that is being discarded (refused or reset stream) are buffered, MaxHeaderListSize is %d", where, n, c.MaxHdr)
+			return &o
+		}
 		if n := st.MaxBodyBuf.Load(); n > int64(c.MaxStreams+1)*int64(c.MaxBody) {
 			o := fail("body-buffer", "%s: %d octets of request body are buffered, the limits allow %d x %d", where, n, c.MaxStreams, c.MaxBody)
 			return &o
@@ -241,6 +245,43 @@ func c13Play(c c13Case, times int) (Outcome, c13Gauges, int) {
 				val := strings.Repeat("h", c.MaxHdr+1)
 				forbidden[tag] = fmt.Sprintf("its header list is over MaxHeaderListSize %d", c.MaxHdr)
 				write(setStream(reqBlock(tag, true, []peer.FieldSpec{{F: refhpack.Field{Name: "x-big", Value: val}, R: refhpack.Rep{Kind: 2}}}), sid))
+			case "big-trailers":
+				// the header block and the trailers are each under the limit, together they are over it
+				sid := next()
+				tag := fmt.Sprintf("T%d", sid)
+				base := 0
+				for _, f := range simpleReq(tag).HeaderList() {
+					base += len(f.F.Name) + len(f.F.Value) + 32
+				}
+				part := c.MaxHdr * 55 / 100
+				hv := part - base - 32 - len("x-big") - 10
+				if hv < 1 {
+					hv = 1
+				}
+				forbidden[tag] = fmt.Sprintf("its header list and trailers together are over MaxHeaderListSize %d (about %d octets each)", c.MaxHdr, part)
+				write(setStream(reqBlock(tag, false, []peer.FieldSpec{{F: refhpack.Field{Name: "x-big", Value: strings.Repeat("h", hv)}, R: refhpack.Rep{Kind: 2}}}), sid))
+				write(rawframe.Append(nil, rawframe.Data, 0, sid, []byte("body")))
+				tb := h.EncodeBlock(nil, []peer.FieldSpec{{F: refhpack.Field{Name: "x-trail", Value: strings.Repeat("t", part-32-len("x-trail"))}, R: refhpack.Rep{Kind: 2}}})
+				write(rawframe.Append(nil, rawframe.Headers, rawframe.FlagEndHeaders|rawframe.FlagEndStream, sid, tb))
+			case "refused-cont-string":
+				// every slot is taken by a parked handler; one more stream is refused, and its header block goes on
+				// in CONTINUATION frames with a literal that never completes: what the server keeps of a block it
+				// is only decoding to stay in step must be bounded like any other
+				for i := 0; i < c.MaxStreams; i++ {
+					sid := next()
+					tag := fmt.Sprintf("p%d", sid)
+					write(setStream(reqBlock(tag, true, nil), sid))
+					parkedTags = append(parkedTags, tag)
+				}
+				sid := next()
+				blk := reqBlock(fmt.Sprintf("R%d", sid), true, nil)
+				blk[4] &^= rawframe.FlagEndHeaders
+				write(setStream(blk, sid))
+				forbidden[fmt.Sprintf("R%d", sid)] = "its header block never completed"
+				write(rawframe.Append(nil, rawframe.Continuation, 0, sid, refhpack.AppendInt([]byte{0x00, 0x01, 'x'}, 7, 0, 1<<22, 0)))
+				for i := 0; i < op.N; i++ {
+					write(rawframe.Append(nil, rawframe.Continuation, 0, sid, make([]byte, 1000+op.B%8000)))
+				}
 			case "ping-flood":
 				for i := 0; i < op.N; i++ {
 					write(rawframe.Append(nil, rawframe.Ping, 0, 0, []byte{0, 0, 0, 0, 0, 0, byte(i >> 8), byte(i)}))
@@ -318,7 +359,7 @@ func c13Gen(t *rapid.T) c13Case {
 		MaxHdr: rapid.SampledFrom([]int{600, 2048, 8192}).Draw(t, "maxhdr"), Times: rapid.SampledFrom([]int{1, 1, 4}).Draw(t, "times")}
 	n := rapid.IntRange(1, 8).Draw(t, "nops")
 	for i := 0; i < n; i++ {
-		op := c13Op{K: rapid.SampledFrom([]string{"reset-flood", "reset-flood", "half-open", "prio-new", "cont-fields", "cont-string", "big-body", "misdeclared", "big-headers", "ping-flood", "settings-flood", "release", "complete"}).Draw(t, "k")}
+		op := c13Op{K: rapid.SampledFrom([]string{"reset-flood", "reset-flood", "half-open", "prio-new", "cont-fields", "cont-string", "refused-cont-string", "big-body", "misdeclared", "big-headers", "big-trailers", "ping-flood", "settings-flood", "release", "complete"}).Draw(t, "k")}
 		op.N = rapid.OneOf(rapid.IntRange(1, 20), rapid.IntRange(1, 300)).Draw(t, "n")
 		op.B = rapid.IntRange(0, 9000).Draw(t, "b")
 		if op.K == "cont-string" && op.N > 80 {
@@ -422,7 +463,7 @@ func c13BPGen(t *rapid.T) c13BPCase {
 
 func TestC13(t *testing.T) {
 	s := newSuite(t, "C13",
-		"adversarial schedules of 1..8 operations, each repeated up to 300 times, from {complete request + immediate RST_STREAM with a parked handler, streams left half-open with partial bodies, PRIORITY on ever-new ids, CONTINUATION floods of complete fields and of one never-completed string, body over / not matching its declared size, header list over the limit, PING and SETTINGS floods, handler releases, normal requests} against small limits (MaxConcurrentStreams 1..8, MaxRequestBodySize 1000..65536, MaxHeaderListSize 600..8192), optionally played 4 times on one connection. Oracle: handlers running at once <= MaxConcurrentStreams; no handler gets a body over the limit or runs for a request whose header list / body broke a limit; hook gauges (stream table, buffered header and body octets; high-water marks) stay within limit-derived bounds; closed-id memory stays at the level it settles at under a plain flood (calibrated once per process with 2000 and 5000 requests, which must agree); playing the schedule 4 times leaves the end-of-run gauges where one pass leaves them. Backpressure lane: N and then 2N (N = 3000 or 6000) PING / SETTINGS / over-the-limit request frames written at once by a peer that reads nothing (server write buffer 1 KiB); oracle: the number of frames the server holds (consumed, reply not yet on the wire) when it stops consuming is the same for both floods (within 200 frames or 25%), i.e. the server ceases to read rather than queueing replies without bound, whatever its buffer and queue sizes are. Non-trivial = >=100 frames and a gauge sampled while a handler was parked, or (backpressure) a flood the server did not consume entirely; distinct by case hash.")
+		"adversarial schedules of 1..8 operations, each repeated up to 300 times, from {complete request + immediate RST_STREAM with a parked handler, streams left half-open with partial bodies, PRIORITY on ever-new ids, CONTINUATION floods of complete fields and of one never-completed string (on an accepted stream, and on a stream refused because every slot is held by a parked handler), body over / not matching its declared size, header list over the limit in one block or only together with the trailers, PING and SETTINGS floods, handler releases, normal requests} against small limits (MaxConcurrentStreams 1..8, MaxRequestBodySize 1000..65536, MaxHeaderListSize 600..8192), optionally played 4 times on one connection. Oracle: handlers running at once <= MaxConcurrentStreams; no handler gets a body over the limit or runs for a request whose header list / body broke a limit; hook gauges (stream table, buffered header and body octets; high-water marks) stay within limit-derived bounds; closed-id memory stays at the level it settles at under a plain flood (calibrated once per process with 2000 and 5000 requests, which must agree); playing the schedule 4 times leaves the end-of-run gauges where one pass leaves them. Backpressure lane: N and then 2N (N = 3000 or 6000) PING / SETTINGS / over-the-limit request frames written at once by a peer that reads nothing (server write buffer 1 KiB); oracle: the number of frames the server holds (consumed, reply not yet on the wire) when it stops consuming is the same for both floods (within 200 frames or 25%), i.e. the server ceases to read rather than queueing replies without bound, whatever its buffer and queue sizes are. Non-trivial = >=100 frames and a gauge sampled while a handler was parked, or (backpressure) a flood the server did not consume entirely; distinct by case hash.")
 	defer s.finish()
 	runLane(s, Lane[c13Case]{Name: "limits", Journal: true, Quick: 600, Thor: 30000, Gen: c13Gen, Run: c13Run})
 	runLane(s, Lane[c13BPCase]{Name: "backpressure", Journal: true, Quick: 16, Thor: 400, Gen: c13BPGen, Run: c13BPRun})
